@@ -138,6 +138,24 @@ class SrvFamily(Family):
             out.append("srv " + " | ".join(steps))
         return out
 
+    def gen_queued(self, rng):
+        """the body arrives in two deliveries and the next request is already queued behind the second one: the body read must
+        stop at the end of the body and must not write past its buffer (overflow checks / heap corruption = abort = violation)"""
+        out = []
+        nxt = vu.hdr(vu.GET_FEATURES, 1, 0)
+        for code in vu.IMPLEMENTED:
+            body, nf = vu.valid_request(rng, code)
+            if len(body) < 4:
+                continue
+            pre, *_ = vu.negotiation(rng, 2)
+            full = vu.hdr(code, 1, len(body) // 2) + body
+            n2 = len(full)
+            for k in sorted(set([26, 24 + len(body) // 4 * 2, n2 - 2])):
+                if 24 < k < n2:
+                    out.append("srv " + " | ".join(pre + [f"m {full[:24]}+{full[24:k]}+{full[k:]}{nxt} f{nf} {vu.hout(rng, code, 0.0)} seq",
+                                                          "m - f0 h=ok,v=1"]))
+        return out
+
     def gen_bodyfds(self, rng):
         """descriptors attached in the middle of a message (on the body segment, header and body written separately), for
         every request that has a body, with and without the descriptors the request itself takes on its first byte"""
@@ -160,6 +178,8 @@ class SrvFamily(Family):
         L = []
         if "bodyfds" in self.modes:
             L += self.gen_bodyfds(rng)
+        if "queued" in self.modes:
+            L += self.gen_queued(rng)
         if "wf" in self.modes:
             L += self.gen_wf(rng, sz["wf"])
         if "gate" in self.modes:
